@@ -37,6 +37,8 @@ def judge(v, rows, stats):
             bad = f"the editor signed and wrote a repository that the client refuses: {o['cls']}"
         elif o["view"] != p["view"]:
             bad = f"the client sees {json.dumps(o['view'])[:300]} where {json.dumps(p['view'])[:300]} was put in"
+        elif o.get("put_problems"):
+            bad = f"the client sees versions / expirations other than the ones put in (timestamp 9, snapshot 7, a different expiration per role): {o['put_problems'][:3]}"
         elif not o["meta_ok"]:
             bad = f"snapshot/timestamp do not describe the written files exactly: {o['meta_detail'][:2]}"
         elif o["publish_err"]:
